@@ -165,7 +165,7 @@ PROPS = {
     "C12": {
         "level": "model_checking",
         "interpreters": PRODUCERS,
-        "rule": "for every code object of a spread of 400 (thorough 1200) grammar programs (plus P1, Q and one huge-integer program): a store {code object, its CodeData, the normalized CodeData, their two JSON documents}; every sequence of <=2 (thorough <=3) calls among the 9 concrete calls (110 / 1110 sequences per code object, run back to back on one shared store) {from_code(c), to_code(d|n), normalize(d|n), to_json_data(d|n), from_json_data(jd|jn)} on those shared objects; after every call the whole store is compared with its initial strict snapshot (documents incl. nested containers and key order) and the result with the result of the same call on untouched arguments; then one mutation (pop/clear/append) at every container path of a returned document followed by to_json_data again, and of an input document after from_json_data; every code object also has a twin (equal under code.__eq__, other file name) that is decoded next to it, and at the end of each worker process (4 per interpreter, so several hundred arguments each) every object and twin is passed to from_code/normalize/to_json_data once more and must give its first results. states = distinct store snapshots; transitions = calls; traces_validated_against_impl = call sequences executed.",
+        "rule": "for every code object of a spread of 400 (thorough 1200) grammar programs (plus P1, Q and one huge-integer program): a store {code object, its CodeData, the normalized CodeData, their two JSON documents}; every sequence of <=2 (thorough <=3) calls among the 9 concrete calls (110 / 1110 sequences per code object, run back to back on one shared store) {from_code(c), to_code(d|n), normalize(d|n), to_json_data(d|n), from_json_data(jd|jn)} on those shared objects; after every call the whole store is compared with its initial strict snapshot (documents incl. nested containers and key order) and the result with the result of the same call on untouched arguments; then one mutation (pop/clear/append) at every container path of a returned document followed by to_json_data again, and of an input document after from_json_data; every code object also has a twin (equal under code.__eq__, other file name) that is decoded next to it, and at the end of each worker process (4 per interpreter, so several hundred arguments each) every object and twin is passed to from_code/normalize/to_json_data once more and must give its first results. states = distinct store snapshots; transitions = calls; traces_validated_against_impl = call sequences executed. Five more base objects carry a lone-surrogate name as parameter, free variable, cell variable, local and global name (their JSON documents hold {'string': ...} wrappers inside list-valued fields).",
         "assumptions": TRUST,
         "required_reach": {"quick": ["function-document", "pure:110-sequences", "recheck-ok"], "thorough": ["function-document", "pure:1110-sequences", "recheck-ok"]},
         "shards": {"quick": 4, "thorough": 4},
